@@ -1,3 +1,214 @@
 import PysphVerif.Driver.Common
-/-! Line-protocol driver for C16 (stub: not built yet). -/
-def main : IO Unit := PysphVerif.Driver.loopPure (fun _ => "bad-op")
+import PysphVerif.Model.InletOutlet
+/-!
+Line protocol for C16.  Every line starts with the number mode: `q` (exact
+rationals `p/q`) or `f` (IEEE doubles as `x<16 hex>`); the two modes keep
+separate states.  Stateful:
+
+  `<m> new`                                  fresh state (no ghost arrays, empty arrays)
+  `<m> arr name=<inlet|ghost_inlet|fluid|outlet|ghost_outlet> x=<l> y=<l> z=<l> u=<l>
+        disp=<l> ioid=<il> tag=<il> lbl=<il> pay=<il>`     replace one array
+  `<m> noarr name=<ghost_inlet|ghost_outlet>`              ghost_pa = None
+  `<m> zone which=<in|out> px= py= pz= nx= ny= nz= len= eps= big=`
+  `<m> dflt which=<fluid|outlet|ghost_outlet> x= y= z= u= disp= ioid= tag= lbl= pay=`
+  `<m> mask props=<none|comma separated field names>`      props_to_copy
+  `<m> uref in=<v> fluid=<v>`
+  `<m> inlet active=<0|1>` | `<m> hybrid active=<0|1> half=<v>` |
+  `<m> outlet active=<0|1>` | `<m> mirror active=<0|1>`   one update call
+
+Setters answer `ok`; updates answer `ok <dump>` or `raise` (state unchanged);
+`<m> dump` answers the dump.  Anything else: `bad-op`.
+-/
+namespace PysphVerif.Driver.C16
+open PysphVerif.Wire PysphVerif.InletOutlet
+
+structure DState (α : Type) where
+  st : State α
+  zin : Zone α
+  zout : Zone α
+  dF : Particle α
+  dO : Particle α
+  dG : Particle α
+  mask : Mask
+
+section
+variable {α : Type} [Add α] [Sub α] [Mul α] [Neg α] [LT α] [DecidableLT α]
+  [OfNat α 0] [OfNat α 1] [OfNat α 2]
+
+def zeroP : Particle α := ⟨0, 0, 0, 0, 0, 0, 0, 0, 0⟩
+def zeroZ : Zone α := ⟨0, 0, 0, 0, 0, 0, 0, 0, 0⟩
+
+def DState.init : DState α :=
+  { st := { inlet := [], ghostIn := none, fluid := [], outlet := [], ghostOut := none,
+            urefIn := 0, urefFluid := 0 },
+    zin := zeroZ, zout := zeroZ, dF := zeroP, dO := zeroP, dG := zeroP, mask := Mask.all }
+
+/-- zip nine columns into records; `none` when the lengths differ -/
+def mkParticles : List α → List α → List α → List α → List α → List Int → List Int →
+    List Int → List Int → Option (List (Particle α))
+  | [], [], [], [], [], [], [], [], [] => some []
+  | x :: xs, y :: ys, z :: zs, u :: us, d :: ds, i :: is, t :: ts, l :: ls, p :: ps =>
+    (mkParticles xs ys zs us ds is ts ls ps).map (fun r => ⟨x, y, z, u, d, i, t, l, p⟩ :: r)
+  | _, _, _, _, _, _, _, _, _ => none
+
+def parseArr (parse : String → Option α) (kv : List (String × String)) :
+    Option (List (Particle α)) := do
+  let x ← (lookup kv "x") >>= parseList? parse
+  let y ← (lookup kv "y") >>= parseList? parse
+  let z ← (lookup kv "z") >>= parseList? parse
+  let u ← (lookup kv "u") >>= parseList? parse
+  let d ← (lookup kv "disp") >>= parseList? parse
+  let i ← (lookup kv "ioid") >>= parseList? parseInt?
+  let t ← (lookup kv "tag") >>= parseList? parseInt?
+  let l ← (lookup kv "lbl") >>= parseList? parseInt?
+  let p ← (lookup kv "pay") >>= parseList? parseInt?
+  mkParticles x y z u d i t l p
+
+def parseOne (parse : String → Option α) (kv : List (String × String)) :
+    Option (Particle α) := do
+  let x ← (lookup kv "x") >>= parse
+  let y ← (lookup kv "y") >>= parse
+  let z ← (lookup kv "z") >>= parse
+  let u ← (lookup kv "u") >>= parse
+  let d ← (lookup kv "disp") >>= parse
+  let i ← (lookup kv "ioid") >>= parseInt?
+  let t ← (lookup kv "tag") >>= parseInt?
+  let l ← (lookup kv "lbl") >>= parseInt?
+  let p ← (lookup kv "pay") >>= parseInt?
+  pure ⟨x, y, z, u, d, i, t, l, p⟩
+
+def parseZone (parse : String → Option α) (kv : List (String × String)) : Option (Zone α) := do
+  let px ← (lookup kv "px") >>= parse
+  let py ← (lookup kv "py") >>= parse
+  let pz ← (lookup kv "pz") >>= parse
+  let nx ← (lookup kv "nx") >>= parse
+  let ny ← (lookup kv "ny") >>= parse
+  let nz ← (lookup kv "nz") >>= parse
+  let len ← (lookup kv "len") >>= parse
+  let eps ← (lookup kv "eps") >>= parse
+  let big ← (lookup kv "big") >>= parse
+  pure ⟨px, py, pz, nx, ny, nz, len, eps, big⟩
+
+def fieldNames : List String := ["x", "y", "z", "u", "disp", "ioid", "tag", "lbl", "pay"]
+
+def parseMask (s : String) : Option Mask :=
+  if s = "none" then some Mask.all else
+  let names := if s = "_" then [] else s.splitOn ","
+  if names.all (fun n => fieldNames.contains n) then
+    some ⟨names.contains "x", names.contains "y", names.contains "z", names.contains "u",
+          names.contains "disp", names.contains "ioid", names.contains "tag",
+          names.contains "lbl", names.contains "pay"⟩
+  else none
+
+def parseBool (s : String) : Option Bool :=
+  if s = "1" then some true else if s = "0" then some false else none
+
+def showArr (sh : α → String) (name : String) (l : List (Particle α)) : String :=
+  " ".intercalate [
+    name ++ ".x=" ++ showList sh (l.map (·.x)),
+    name ++ ".y=" ++ showList sh (l.map (·.y)),
+    name ++ ".z=" ++ showList sh (l.map (·.z)),
+    name ++ ".u=" ++ showList sh (l.map (·.u)),
+    name ++ ".disp=" ++ showList sh (l.map (·.disp)),
+    name ++ ".ioid=" ++ showList toString (l.map (·.ioid)),
+    name ++ ".tag=" ++ showList toString (l.map (·.tag)),
+    name ++ ".lbl=" ++ showList toString (l.map (·.lbl)),
+    name ++ ".pay=" ++ showList toString (l.map (·.pay))]
+
+def showOptArr (sh : α → String) (name : String) : Option (List (Particle α)) → String
+  | none => name ++ "=None"
+  | some l => showArr sh name l
+
+def dump (sh : α → String) (s : State α) : String :=
+  " ".intercalate [
+    showArr sh "inlet" s.inlet, showOptArr sh "ghost_inlet" s.ghostIn,
+    showArr sh "fluid" s.fluid, showArr sh "outlet" s.outlet,
+    showOptArr sh "ghost_outlet" s.ghostOut,
+    "uref.in=" ++ sh s.urefIn, "uref.fluid=" ++ sh s.urefFluid]
+
+def answer (sh : α → String) (d : DState α) : Option (State α) → DState α × String
+  | none => (d, "raise")
+  | some s => ({ d with st := s }, "ok " ++ dump sh s)
+
+def step (parse : String → Option α) (sh : α → String) (d : DState α) (toks : List String) :
+    Option (DState α × String) :=
+  match toks with
+  | [] => none
+  | cmd :: rest =>
+    let kv := kvs rest
+    if cmd = "new" then some (DState.init, "ok")
+    else if cmd = "dump" then some (d, "ok " ++ dump sh d.st)
+    else if cmd = "arr" then do
+      let name ← lookup kv "name"
+      let l ← parseArr parse kv
+      let st ← (if name = "inlet" then some { d.st with inlet := l }
+        else if name = "ghost_inlet" then some { d.st with ghostIn := some l }
+        else if name = "fluid" then some { d.st with fluid := l }
+        else if name = "outlet" then some { d.st with outlet := l }
+        else if name = "ghost_outlet" then some { d.st with ghostOut := some l }
+        else none : Option (State α))
+      pure ({ d with st := st }, "ok")
+    else if cmd = "noarr" then do
+      let name ← lookup kv "name"
+      let st ← (if name = "ghost_inlet" then some { d.st with ghostIn := none }
+        else if name = "ghost_outlet" then some { d.st with ghostOut := none }
+        else none : Option (State α))
+      pure ({ d with st := st }, "ok")
+    else if cmd = "zone" then do
+      let w ← lookup kv "which"
+      let z ← parseZone parse kv
+      if w = "in" then pure ({ d with zin := z }, "ok")
+      else if w = "out" then pure ({ d with zout := z }, "ok")
+      else none
+    else if cmd = "dflt" then do
+      let w ← lookup kv "which"
+      let p ← parseOne parse kv
+      if w = "fluid" then pure ({ d with dF := p }, "ok")
+      else if w = "outlet" then pure ({ d with dO := p }, "ok")
+      else if w = "ghost_outlet" then pure ({ d with dG := p }, "ok")
+      else none
+    else if cmd = "mask" then do
+      let m ← (lookup kv "props") >>= parseMask
+      pure ({ d with mask := m }, "ok")
+    else if cmd = "uref" then do
+      let a ← (lookup kv "in") >>= parse
+      let b ← (lookup kv "fluid") >>= parse
+      pure ({ d with st := { d.st with urefIn := a, urefFluid := b } }, "ok")
+    else if cmd = "inlet" then do
+      let act ← (lookup kv "active") >>= parseBool
+      pure (answer sh d (inletUpdate d.zin d.dF act d.st))
+    else if cmd = "hybrid" then do
+      let act ← (lookup kv "active") >>= parseBool
+      let half ← (lookup kv "half") >>= parse
+      pure (answer sh d (hybridInletUpdate half d.zin d.dF act d.st))
+    else if cmd = "outlet" then do
+      let act ← (lookup kv "active") >>= parseBool
+      pure (answer sh d (outletUpdate d.zout d.mask d.dO act d.st))
+    else if cmd = "mirror" then do
+      let act ← (lookup kv "active") >>= parseBool
+      pure (answer sh d (mirrorOutletUpdate d.zout d.mask d.dO d.dG act d.st))
+    else none
+
+end
+
+structure Top where
+  q : DState Rat
+  f : DState Float
+
+def handle (t : Top) (line : String) : Top × String :=
+  match tokens line with
+  | "q" :: rest =>
+    (match step parseRat? showRat t.q rest with
+     | some (d, out) => ({ t with q := d }, out)
+     | none => (t, "bad-op"))
+  | "f" :: rest =>
+    (match step parseFloatBits? showFloatBits t.f rest with
+     | some (d, out) => ({ t with f := d }, out)
+     | none => (t, "bad-op"))
+  | _ => (t, "bad-op")
+
+end PysphVerif.Driver.C16
+
+def main : IO Unit :=
+  PysphVerif.Driver.loop PysphVerif.Driver.C16.handle
+    { q := PysphVerif.Driver.C16.DState.init, f := PysphVerif.Driver.C16.DState.init }
